@@ -154,7 +154,7 @@ namespace bxdecay0 {
     if (p <= 25.714) {
       goto label_92701; // 25.714%
     }
-    if (p <= 99.1847) {
+    if (p <= 99.184) {
       goto label_92702; // 73.470%
     }
     goto label_92703;   // 0.816%
